@@ -1,5 +1,5 @@
 (* C10 proofs: oracle meaning, classification invariants of the decidePackAction model, totals. *)
-From Restic Require Import Base.Prelude Model.S_Prune Proofs.S_Prunep Model.C10m.
+From Restic Require Import Base.Prelude Model.S_Prune Proofs.S_Prunep Proofs.S_Prunep2 Model.C10m.
 From Coq Require Import ZifyBool ZifyNat ZifyN.
 Import SPrune C10m.
 Open Scope N_scope.
@@ -154,6 +154,101 @@ Proof.
   exists e. repeat split; try assumption.
   - intros X. rewrite (R1 _ X) in H3. lia.
   - intros X. rewrite (R2 _ X) in H3. lia.
+Qed.
+
+(* ---------- no unused blob stays indexed: model level ---------- *)
+Lemma c10_dedupN_In l : forall seen x, In x l -> ~ In x seen -> In x (dedupN l seen).
+Proof.
+  induction l as [|y l IH]; intros seen x Hin Hs; [destruct Hin|]. cbn [dedupN].
+  destruct (memN y seen) eqn:E.
+  - destruct Hin as [->|Hin]; [apply memN_In in E; contradiction | apply IH; assumption].
+  - destruct (N.eq_dec x y) as [->|Hn]; [left; reflexivity|]. right.
+    destruct Hin as [->|Hin]; [congruence|]. apply IH; [exact Hin|]. intros [->|H]; [congruence | contradiction].
+Qed.
+
+Lemma c10_dedupN_incl l : forall seen x, In x (dedupN l seen) -> In x l.
+Proof.
+  induction l as [|y l IH]; intros seen x H; [destruct H|]. cbn [dedupN] in H.
+  destruct (memN y seen); [right; eapply IH, H|]. destruct H as [->|H]; [left; reflexivity | right; eapply IH, H].
+Qed.
+
+Definition classified (d : dst) (q : N) : Prop :=
+  In q (d_remove d) \/ In q (map fst (d_cand d)) \/ In q (map fst (d_small d)) \/ In q (d_kept d).
+
+Lemma d_step_classified o s pks tgt d x :
+  (d_err d = false -> forall q, In q (d_seen d) -> classified d q) ->
+  d_err (d_step o s pks tgt d x) = false -> forall q, In q (d_seen (d_step o s pks tgt d x)) -> classified (d_step o s pks tgt d x) q.
+Proof.
+  intros H. unfold d_step, classified in *.
+  repeat match goal with |- context [if ?b then _ else _] => destruct b end;
+    cbn [d_err d_seen d_remove d_cand d_small d_kept map fst In]; intros He q Hq;
+    try discriminate;
+    try (destruct Hq as [<-|Hq]; [tauto|]);
+    destruct (H He q Hq) as [X|[X|[X|X]]]; tauto.
+Qed.
+
+Lemma d_fold_classified o s pks tgt l : forall d,
+  (d_err d = false -> forall q, In q (d_seen d) -> classified d q) ->
+  d_err (fold_left (d_step o s pks tgt) l d) = false ->
+  forall q, In q (d_seen (fold_left (d_step o s pks tgt) l d)) -> classified (fold_left (d_step o s pks tgt) l d) q.
+Proof.
+  induction l as [|x l IH]; intros d H; [exact H|]. cbn [fold_left]. apply IH. apply d_step_classified, H.
+Qed.
+
+(* After a full prune (no --repack-cacheable-only) planned by the model, every index entry that survives
+   (its pack is neither removed, repacked nor ignored) belongs to a used blob, and so does every blob
+   kept for repacking: the index after the prune lists no blob that is unreachable from a snapshot. *)
+Theorem no_unused_after_model o used es listing f r p i k stats :
+  plan_prune o used es listing = Plan f r p i k stats -> o_cacheable o = false ->
+  (forall e, In e es -> ~ In (e_pack e) (r ++ p ++ i) -> In (e_h e) used) /\
+  (forall h, In h k -> In h used).
+Proof.
+  intros Hp Hc. pose proof Hp as Hp0. revert Hp.
+  unfold plan_prune. destruct (pack_info kc used es) as [| |s] eqn:Ep; try discriminate.
+  assert (Hs : s = final kc used es).
+  { unfold pack_info in Ep. destruct (existsb _ used); [discriminate|].
+    fold (final kc used es) in Ep. destruct (forallb _ used); [inversion Ep; reflexivity | discriminate]. }
+  subst s.
+  set (s := final kc used es). set (pks := packs_of es). set (tgt := target_size o s pks).
+  pose proof (d_fold_inv o s pks tgt listing _ (cls_inv_init o s pks)) as [I1 [I2 [I3 [I4 I5]]]].
+  assert (Hcl0 : d_err (mkD [] [] [] [] 0 0 0 0 0 0 0 0 [] [] false) = false ->
+                 forall q, In q (d_seen (mkD [] [] [] [] 0 0 0 0 0 0 0 0 [] [] false)) -> classified (mkD [] [] [] [] 0 0 0 0 0 0 0 0 [] [] false) q)
+    by (cbn; intros _ q []).
+  pose proof (d_fold_classified o s pks tgt listing _ Hcl0) as Hcl.
+  set (d := fold_left (d_step o s pks tgt) listing (mkD [] [] [] [] 0 0 0 0 0 0 0 0 [] [] false)) in *.
+  destruct (d_err d) eqn:Ed; [discriminate|].
+  destruct (existsb (fun q => negb (usedB (ip s q) =? 0)) (filter (fun q => negb (memN q (d_seen d))) pks)) eqn:Em; [discriminate|].
+  intros H. inversion H; subst; clear H. split.
+  - intros e He Hn. set (q := e_pack e) in *.
+    assert (Hq : In q pks) by (unfold pks, packs_of; apply c10_dedupN_In; [apply in_map, He | intros []]).
+    assert (Hseen : In q (d_seen d)).
+    { destruct (memN q (d_seen d)) eqn:E; [apply memN_In, E|]. exfalso. apply Hn.
+      apply in_or_app. right. apply in_or_app. right. apply filter_In. split; [exact Hq|]. rewrite E. reflexivity. }
+    assert (Hz : unusedB (ip s q) = 0).
+    { destruct (Hcl eq_refl q Hseen) as [X|[X|[X|X]]].
+      - exfalso. apply Hn. apply in_or_app. left. exact X.
+      - exfalso. apply Hn. apply in_or_app. right. apply in_or_app. left.
+        destruct (N.of_nat (length (d_small d)) <? 10); [exact X | rewrite map_app; apply in_or_app; left; exact X].
+      - apply in_map_iff in X as [c [Hc1 Hc2]]. destruct (I4 c Hc2) as [_ [Hu Heq]]. rewrite <- Hc1, <- Heq. exact Hu.
+      - destruct (I2 q X) as [_ Hu]. apply Hu, Hc. }
+    eapply all_used_pack_entries; [exact Hz | exact He | reflexivity].
+  - intros h Hh.
+    match type of Hh with In h (match ?rp with [] => [] | _ => _ end) => destruct rp; [destruct Hh|] end.
+    unfold keep_blobs in Hh. apply filter_In in Hh as [Hh _]. eapply c10_dedupN_incl, Hh.
+Qed.
+
+(* Blobs.Total of the model's statistics is the number of index entries, for every input *)
+Theorem blobs_total_exact o used es listing f r p i k s :
+  plan_prune o used es listing = Plan f r p i k s -> st_nth s 3 = lenN es.
+Proof.
+  unfold plan_prune. destruct (pack_info kc used es) as [| |s0] eqn:Ep; try discriminate.
+  assert (Hs : s0 = final kc used es).
+  { unfold pack_info in Ep. destruct (existsb _ used); [discriminate|].
+    fold (final kc used es) in Ep. destruct (forallb _ used); [inversion Ep; reflexivity | discriminate]. }
+  match goal with |- context [d_err ?d] => destruct (d_err d); [discriminate|] end.
+  match goal with |- context [existsb ?g ?l] => destruct (existsb g l); [discriminate|] end.
+  intros H. inversion H; subst; clear H. unfold st_nth. cbn [nth]. unfold lenN.
+  destruct (final_counters_exact kc used es) as [_ [G _]]. lia.
 Qed.
 
 (* totals of PlanPrune *)
